@@ -51,6 +51,20 @@ def load_repo():
     return _loaded["cls"]
 
 
+def stable_dump(node, positions=True):
+    """ast.dump that stays deterministic when a malformed tree holds non-AST containers (e.g. the raw (atom, token) tuple of finding
+    F03e, whose default repr contains object addresses)"""
+    if isinstance(node, ast.AST):
+        parts = [f"{f}={stable_dump(getattr(node, f, None), positions)}" for f in node._fields]
+        if positions:
+            parts += [f"{a}={getattr(node, a, None)!r}" for a in node._attributes]
+        return f"{type(node).__name__}({', '.join(parts)})"
+    if isinstance(node, (list, tuple)):
+        inner = ", ".join(stable_dump(x, positions) for x in node)
+        return ("[" + inner + "]") if isinstance(node, list) else ("(" + inner + ",)")
+    return repr(node)
+
+
 class CaseTimeout(BaseException):
     """wall-clock watchdog of one call: inconclusive, never a violation"""
 
@@ -96,7 +110,7 @@ class Outcome:
     def sig(self, positions=True):
         """comparable signature of the outcome"""
         if self.kind == "tree":
-            return ("tree", ast.dump(self.value, include_attributes=positions))
+            return ("tree", stable_dump(self.value, positions))
         if self.kind == "syntax":
             e = self.exc
             return (
